@@ -530,14 +530,40 @@ class StdioClient:
             # cancelled (outer cancel scope, timeout around the context): the
             # awaits above then raise and would otherwise skip the termination,
             # leaving the subprocess running.  Bounded by the two 1s grace periods.
-            if self.process and self.process.returncode is None:
-                try:
-                    with anyio.CancelScope(shield=True):
-                        await self._terminate_process()
-                except Exception as e:
-                    logger.debug(f"Error during stdio client shutdown: {e}")
+            try:
+                if self.process and self.process.returncode is None:
+                    try:
+                        with anyio.CancelScope(shield=True):
+                            await self._terminate_process()
+                    except Exception as e:
+                        logger.debug(f"Error during stdio client shutdown: {e}")
+            finally:
+                await self._release_process_pipes()
 
         return False
+
+    async def _release_process_pipes(self) -> None:
+        """Close our ends of the child's pipes once the child is gone.
+
+        Output the child wrote but nobody read (a flooding server, a reader that
+        was already cancelled) keeps the stdout pipe from ever reaching EOF, so
+        nothing else would close it: the descriptor would stay open for the life
+        of the event loop.
+        """
+        process = self.process
+        if process is None:
+            return
+        try:
+            with anyio.CancelScope(shield=True):
+                if process.returncode is None:
+                    # Signalled a moment ago but not reaped yet: give it the
+                    # moment it needs, never more than one grace period
+                    with anyio.move_on_after(1.0):
+                        await process.wait()
+                if process.returncode is not None:
+                    await process.aclose()
+        except Exception as e:
+            logger.debug(f"Error closing subprocess pipes: {e}")
 
     async def _terminate_process(self) -> None:
         """Terminate the helper process gracefully, with shorter timeouts."""
